@@ -1,6 +1,7 @@
 import PoaVerif.Lemmas.EndBlock
 import PoaVerif.Facts
 import PoaVerif.Lemmas.Corollaries
+import PoaVerif.Lemmas.Quiet
 /-
   C18 — queries report exactly the committed PoA state.
 -/
@@ -60,5 +61,36 @@ theorem c18_query_agrees_partial (s s' : App) (c c' : CSet) (ups : List (Nat × 
     alookup w.key c' = s'.queryPower (some op) := by
   rw [query_agrees_pre s s' c c' ups hpre h hc op w hw hb hj]
   simp [queryPower, hw]
+
+/-! ### along whole histories (the power-adjustment envelope) -/
+
+/-- in a state satisfying the between-blocks invariant `G`, the three views coincide: for every validator record
+    the power query answers `tokens / 10^6`, CometBFT holds exactly that power under the record's key, and CometBFT
+    holds no key that is not a record's -/
+theorem G_views (s : App) (c : CSet) (g : G s c) :
+    (∀ v ∈ s.vals, s.queryPower (some v.op) = some ((powerOf v.tokens : Nat) : Int) ∧
+                   alookup v.key c = some ((powerOf v.tokens : Nat) : Int)) ∧
+    (∀ k p, alookup k c = some p → ∃ v ∈ s.vals, v.key = k) := by
+  refine ⟨?_, g.cometKnown⟩
+  intro v hv
+  have hg := mem_vals_getVal s g.sorted v hv
+  refine ⟨?_, g.allCur v hv⟩
+  simp [queryPower, hg, lastPower, g.last v.op v hg, cur]
+
+/-- **C18, along whole histories.**  From every well-formed genesis, along every quiet history (`Lemmas/Quiet.lean`),
+    after InitChain and after every block: the power query of every validator record answers `tokens / 10^6`, which is
+    exactly the power CometBFT holds for the record's key, and CometBFT holds no other key. -/
+theorem c18_history_partial (g : Genesis) (hw : g.wf = true) (bs : List Block) (hq : QuietHistory g bs) :
+    ∃ first steps, run genEnv g bs = some (first, steps, RunEnd.done) ∧
+      ∀ st ∈ first :: steps,
+        (∀ v ∈ st.app.vals, st.app.queryPower (some v.op) = some ((powerOf v.tokens : Nat) : Int) ∧
+                            alookup v.key st.comet = some ((powerOf v.tokens : Nat) : Int)) ∧
+        (∀ k p, alookup k st.comet = some p → ∃ v ∈ st.app.vals, v.key = k) := by
+  obtain ⟨first, steps, h1, _, _, hg, h5⟩ := quiet_history g hw bs hq
+  refine ⟨first, steps, h1, ?_⟩
+  intro st hst
+  rcases List.mem_cons.mp hst with e | e
+  · rw [e]; exact G_views _ _ hg
+  · exact G_views _ _ (h5 st e).2
 
 end PoaVerif.Props.C18
